@@ -119,7 +119,7 @@ func searchFieldId(p *binary.BinaryProtocol, id proto.FieldNumber, messageLen in
 
 // searchIndex in LIST Node
 // packed: if idx is found, return the element[V] value start position, otherwise return the end of p.Buf
-// unpacked: if idx is found, return the element[TLV] tag position, otherwise return the end of p.Buf
+// unpacked: if idx is found, return the element[(L)V] value start position (the element tag is consumed), otherwise return the end of p.Buf
 func searchIndex(p *binary.BinaryProtocol, idx int, elementWireType proto.WireType, isPacked bool, fieldNumber proto.FieldNumber) (int, error) {
 	if idx < 0 {
 		return 0, errNode(meta.ErrInvalidParam, "searchIndex: negative index", nil)
@@ -164,10 +164,9 @@ func searchIndex(p *binary.BinaryProtocol, idx int, elementWireType proto.WireTy
 					// the list ended before the idx-th element
 					return p.Read, errNotFound
 				}
-				if cnt < idx {
-					p.Read += n
-				}
-				result = p.Read + n
+				// leave the cursor on the element value, as it is for element 0
+				p.Read += n
+				result = p.Read
 			} else {
 				// the buffer ended before the idx-th element
 				return p.Read, errNotFound
@@ -314,6 +313,8 @@ func (self Value) getByPath(pathes ...Path) (Value, []int) {
 	size := 0
 	desc := self.Desc
 	isRoot := self.IsRoot
+	// elemTagConsumed tells that the last search was an unpacked-list index, whose element tag is already consumed
+	elemTagConsumed := false
 	if len(pathes) == 0 {
 		return self, address
 	}
@@ -333,6 +334,7 @@ func (self Value) getByPath(pathes ...Path) (Value, []int) {
 	}
 
 	for i, path := range pathes {
+		elemTagConsumed = false
 		switch path.t {
 		case PathFieldId:
 			id := path.id()
@@ -387,6 +389,7 @@ func (self Value) getByPath(pathes ...Path) (Value, []int) {
 			elementWireType := desc.Elem().WireType()
 			isPacked := desc.IsPacked()
 			start, err = searchIndex(&p, path.int(), elementWireType, isPacked, desc.BaseId())
+			elemTagConsumed = !isPacked
 			tt = desc.Elem().Type()
 			if err == errNotFound {
 				tt = proto.LIST
@@ -425,7 +428,7 @@ func (self Value) getByPath(pathes ...Path) (Value, []int) {
 			return errValue(en.ErrCode().Behavior(), "invalid value node.", err), address
 		}
 		// if not the last one, it must be a complex node, so need to skip tag
-		if i != len(pathes)-1 {
+		if i != len(pathes)-1 && !elemTagConsumed {
 			if _, _, _, err := p.ConsumeTag(); err != nil {
 				return errValue(meta.ErrRead, "invalid field tag failed.", err), address
 			}
@@ -457,7 +460,7 @@ func (self Value) getByPath(pathes ...Path) (Value, []int) {
 		var skipType proto.WireType
 		
 		// only packed list element no tag to skip
-		if desc.IsPacked() == false {
+		if desc.IsPacked() == false && !elemTagConsumed {
 			if _, _, _, err := p.ConsumeTag(); err != nil {
 				return errValue(meta.ErrRead, "invalid field tag.", err), address
 			}
